@@ -54,7 +54,7 @@ func vfExecMore15(f []string, op string) (string, bool) {
 		return fmt.Sprintf("%s => %s%s %s", op, vfBit(m.Is(s)), vfBit(EqualsAny(s, string(vfUnhex(f[1])))), vfHex([]byte(m.String()))), true
 	case "eqany": // eqany shex thex
 		return fmt.Sprintf("%s => %s", op, vfBit(EqualsAny(string(vfUnhex(f[1])), string(vfUnhex(f[2]))))), true
-	case "xres": // xres script hex lim : the same properties of a result on a tree enlarged by Extend calls
+	case "xres", "xresn": // xres script hex lim : the same properties of a result on a tree enlarged by Extend calls
 		if vfBuiltin == nil {
 			vfBuiltin = vfSnapshot()
 		}
@@ -307,11 +307,26 @@ func (g *vfGen) genC15() {
 	// and with such aliases: the result Is its own String(), Lookup of its bare type Is it, it knows its aliases
 	for _, nm := range []string{"Application/X-Verif-Upper", "application/X-VERIF-mixed", " application/x-verif-blank ", "application/x-verif-param; v=1", "text/plain", "TEXT/HTML"} {
 		for _, parent := range []string{"r", "0", "3"} {
-			for _, al := range []string{"~", vfHex([]byte("Application/X-Verif-Alias")) + "+" + vfHex([]byte("application/x-verif-alias2; q=1"))} {
+			for _, al := range []string{"~", vfHex([]byte("Application/X-Verif-Alias")) + "+" + vfHex([]byte("application/x-verif-alias2; q=1")),
+				// several aliases in no particular order (descending, shuffled, one a prefix of another)
+				vfHex([]byte("application/x-verif-zz")) + "+" + vfHex([]byte("application/x-verif-aa")),
+				vfHex([]byte("application/x-verif-mm")) + "+" + vfHex([]byte("application/x-verif-zz")) + "+" + vfHex([]byte("application/x-verif-aa")) + "+" + vfHex([]byte("application/x-verif")) + "+" + vfHex([]byte("text/x-verif-b")) + "+" + vfHex([]byte("audio/x-verif-c"))} {
 				sc := fmt.Sprintf("%s:always:%s:%s:%s", parent, vfHex([]byte(nm)), vfHex([]byte(".vu")), al)
 				for _, in := range [][]byte{[]byte("plain text"), {}, []byte("%PDF-1.4"), []byte("<html><body>caf\xe9")} {
 					g.emit(vfOp("xres", sc, in, 0))
 				}
+			}
+		}
+	}
+	// the same with names and aliases in normal form, several aliases in no particular order (descending, shuffled, one a
+	// prefix of another, other top-level types): the result knows every one of them
+	for _, parent := range []string{"r", "0", "3"} {
+		for _, al := range []string{vfHex([]byte("application/x-verif-zz")) + "+" + vfHex([]byte("application/x-verif-aa")),
+			vfHex([]byte("application/x-verif-mm")) + "+" + vfHex([]byte("application/x-verif-zz")) + "+" + vfHex([]byte("application/x-verif-aa")) + "+" + vfHex([]byte("application/x-verif")) + "+" + vfHex([]byte("text/x-verif-b")) + "+" + vfHex([]byte("audio/x-verif-c")),
+			vfHex([]byte("b/b")) + "+" + vfHex([]byte("a/a")) + "+" + vfHex([]byte("c/c"))} {
+			sc := fmt.Sprintf("%s:always:%s:%s:%s", parent, vfHex([]byte("application/x-verif-normal")), vfHex([]byte(".vn")), al)
+			for _, in := range [][]byte{[]byte("plain text"), {}, []byte("%PDF-1.4"), []byte("PK\x03\x04")} {
+				g.emit(vfOp("xresn", sc, in, 0))
 			}
 		}
 	}
